@@ -15,7 +15,6 @@
 package model
 
 import (
-	"container/list"
 	"errors"
 	"fmt"
 	"regexp"
@@ -302,29 +301,30 @@ func getSubjectHierarchyMap(policies [][]string) (map[string]int, error) {
 		}
 		subjectHierarchyMap[child] = 1
 	}
-	// Use queues for levelOrder
-	queue := list.New()
+	// Level-order traversal from every root. Each level is de-duplicated, so the work per
+	// level is bounded by the number of names, and a hierarchy deeper than the number of
+	// names can only come from a cycle.
 	for k, v := range subjectHierarchyMap {
-		root := k
 		if v != 0 {
 			continue
 		}
-		lv := 0
-		queue.PushBack(root)
-		for queue.Len() != 0 {
-			sz := queue.Len()
-			for i := 0; i < sz; i++ {
-				node := queue.Front()
-				queue.Remove(node)
-				nodeValue := node.Value.(string)
-				subjectHierarchyMap[nodeValue] = lv
-				if _, ok := policyMap[nodeValue]; ok {
-					for _, child := range policyMap[nodeValue] {
-						queue.PushBack(child)
+		level := []string{k}
+		for lv := 0; len(level) != 0; lv++ {
+			if lv > len(subjectHierarchyMap) {
+				return nil, errors.New("the role hierarchy used for subject priority contains a cycle")
+			}
+			var next []string
+			queued := make(map[string]bool)
+			for _, node := range level {
+				subjectHierarchyMap[node] = lv
+				for _, child := range policyMap[node] {
+					if !queued[child] {
+						queued[child] = true
+						next = append(next, child)
 					}
 				}
 			}
-			lv++
+			level = next
 		}
 	}
 	return subjectHierarchyMap, nil
